@@ -204,6 +204,18 @@ Proof.
   - intros E. rewrite E in Hlen. cbn in Hlen. lia.
 Qed.
 
+(* the receiver's bound on FragCount is at least the largest fragment count a sender can produce, for every admissible
+   MTU (>= 128), option setting, PIT token (<= 32 bytes), congestion mark, incoming-face id and packet (<= MaxNDNPacketSize) *)
+Theorem sender_count_le_receiver_bound_lemma : forall mtu o sq tok inface mark wire,
+  (128 <= mtu)%Z -> (length tok <= 32)%nat -> (1 <= zlen wire <= Z.of_N c_MaxNDNPacketSize)%Z -> sq < two64 ->
+  N.of_nat (length (fst (send_fields mtu o sq tok inface mark wire))) <= c_maxFragCount.
+Proof.
+  intros mtu o sq tok inface mark wire Hmtu Htok Hw Hsq.
+  destruct (send_fields_record mtu o sq tok inface mark wire Hmtu Htok Hw Hsq) as (m & -> & [_ Hshape] & _).
+  unfold frames_of_m. rewrite map_length, seq_length.
+  destruct (m_multi m); [tauto|]. pose proof consts_maxfrag. unfold c_MaxNDNPacketSize in *. lia.
+Qed.
+
 (* every frame of send_fields can be decoded back *)
 Lemma frame_of_sendable m i : wf_m m -> (i < length (m_cs m))%nat ->
   lenN (m_tok m) <= 32 -> olt (m_inface m) -> olt (m_mark m) -> lenN (concat (m_cs m)) <= c_MaxNDNPacketSize ->
